@@ -101,3 +101,16 @@ def e_hex(eng):
     s = z3.Const("eh.s", S)
     h2i = uf("hex2int", S, I)
     return [Schema("E-hex.nonneg", [s], h2i(s) >= 0, triggers=[[h2i(s)]], origin="assumed")]
+
+
+# ---------------------------------------------------------------- E-bidict
+@R.external("bidict.bidict")
+def ext_bidict(eng, args, kw, node):
+    """bidict(d) for a literal dict d with pairwise distinct values"""
+    eng.used_assumptions.add("E-bidict")
+    a = args[0] if args else Conc({})
+    if not isinstance(a, Conc) or not isinstance(a.v, dict):
+        raise Unsupported("bidict() of a non-literal")
+    if len(set(a.v.values())) != len(a.v):
+        raise RaiseSig("ValueDuplicationError")
+    return Special("dict_lit", pairs=[(Conc(k), Conc(v)) for k, v in a.v.items()])
